@@ -26,7 +26,7 @@ func init() {
 		return &ActionSpec{
 			ID: id, Module: "Txn",
 			MCCfgs: []string{"TxnMC_q.cfg", "TxnMC_env_q.cfg"}, MCThor: []string{"TxnMC.cfg", "TxnMC_env.cfg"}, GenCfgs: gens,
-			NSim: [2]int{150, 2500}, NRand: [2]int{40, 400},
+			NSim: [2]int{100, 2500}, NRand: [2]int{40, 400},
 			Setup: txnSetup, Exec: txnExec, Random: nil, Sig: txnSig, Assume: assume, MCWorkers: 12,
 		}
 	}
@@ -294,6 +294,8 @@ func txnSQL(a Action) string {
 		return fmt.Sprintf("@z := ins_%s(%d);", aStr(a, "t"), k)
 	case "create":
 		return "CREATE TABLE `f3.csv` (id, v);"
+	case "createifnot":
+		return fmt.Sprintf("CREATE TABLE IF NOT EXISTS %s (%s);", t, []string{"id, v", "id", "id, zz"}[k])
 	case "commit":
 		return "COMMIT;"
 	case "rollback":
@@ -425,7 +427,8 @@ func txnExec(p *sut.Proc, a Action) Out {
 		return Out{K: "val", Vals: showFile(fileOf(p.Dir, aStr(a, "t")), true)}
 	case "env":
 		return envCommit(p, aStr(a, "t"))
-	case "create", "commit", "rollback", "setenc", "createas", "callnoop", "nestexec", "nestsource", "nestprep":
+	case "create", "commit", "rollback", "setenc", "createas", "callnoop", "nestexec", "nestsource", "nestprep", "createifnot":
+		_, statErr := os.Stat(filepath.Join(p.Dir, "f3.csv"))
 		sql := txnSQL(a)
 		if actName(a) == "nestsource" {
 			sql = "SOURCE `" + filepath.Join(p.Dir, "nest.sql") + "`;"
@@ -438,6 +441,10 @@ func txnExec(p *sut.Proc, a Action) Out {
 		switch actName(a) {
 		case "create", "createas":
 			p.User["created"] = true
+		case "createifnot":
+			if aStr(a, "t") == "f3" && statErr != nil {
+				p.User["created"] = true
+			}
 		case "commit", "rollback":
 			p.User["created"] = false
 		}
